@@ -719,7 +719,7 @@ func init() {
 	core.Register(&core.Prop{
 		ID:    "C13",
 		Level: "exploration",
-		Rule: "random source trees (adversarial names incl. a 255-byte name, files around the 32KiB boundary, symlinks relative/absolute/dangling/looping, fifos, char and block devices, a few sockets, hard-link groups of regular files and of fifos/char devices, in 1 tree of 6 a hard-link group of 2-3 socket names and in 1 of 6 a hard-link group of 2-3 symlink names (dangling, relative, absolute targets; same or different directories), setuid/setgid/sticky, owners {0,1234,65534}, ns/negative/far-future mtimes, user.* xattrs on files and dirs, trusted.* xattrs on symlinks, random metadata on the source root itself, 1/8 of the directories without any execute bit, up to two extra symlinks whose absolute or relative target is an existing entry) are created on disk and copied with fs.Copy into an empty destination root; " +
+		Rule: "Plus directed variants: wildcard+linkgroup (a link group spread over three wildcard matches landing in one directory, an unrelated - possibly prefix-named - file in between) and a destination root spelled '.' with the working directory inside the destination. random source trees (adversarial names incl. a 255-byte name, files around the 32KiB boundary, symlinks relative/absolute/dangling/looping, fifos, char and block devices, a few sockets, hard-link groups of regular files and of fifos/char devices, in 1 tree of 6 a hard-link group of 2-3 socket names and in 1 of 6 a hard-link group of 2-3 symlink names (dangling, relative, absolute targets; same or different directories), setuid/setgid/sticky, owners {0,1234,65534}, ns/negative/far-future mtimes, user.* xattrs on files and dirs, trusted.* xattrs on symlinks, random metadata on the source root itself, 1/8 of the directories without any execute bit, up to two extra symlinks whose absolute or relative target is an existing entry) are created on disk and copied with fs.Copy into an empty destination root; " +
 			"source = {whole tree, one sub-directory, one file/fifo/device/socket, one symlink}; destination argument = {existing root, new nested path n1/n2/leaf, new nested directory n1/n2/}; flags = FollowLinks on/off, CopyDirContents on/off (directory sources), process umask {0,022,077}; in 1/8 of the cases (xattr fault variant) the destination root is a fresh directory on a file system that rejects oversized xattr values (probed at run time: /var/tmp, /tmp, /root or $VERIF_C13_XFAULT_BASE; the source stays on tmpfs), 1-3 entries carry a 4500/8000/20000-byte value of a key K in {user.xf, trusted.xf, user.k1}, at least two other files/dirs/symlinks (and sometimes the source root) carry the SAME key with 0-40 byte values at names sorting before and after the oversized ones, and the handler is AllowXAttrErrors or a recording tolerant handler (7/8) or an aborting one (1/8); " +
 			"options drawn independently: WithChown (uid,gid from {0,1,1234,65534,4000000000}), Mode (octal incl. special bits) or ModeStr (symbolic: 20 classic forms and a grammar of 1-3 clauses of who-lists x 1-2 operations + - = x subsets of rwx, X (not after '-'), s, t (with who 'a', or alone as +t/-t), permission copies u/g/o), Utime (ns, negative, far future; in 1/12 of the Utime cases an instant OUTSIDE the window an int64 nanosecond count can hold: the two instants one nanosecond outside it, years 2262-2400, years 1500-1677, random second and nanosecond), XAttrErrorHandler {nil, allow, recording-strict, recording-tolerant}, change notifier on 7/8 of the cases. " +
 			"Oracle: independent lstat/readlink/listxattr/bytes snapshot of the source, re-rooted at the landing path, with the option overrides applied, compared with the snapshot of the destination (type, bytes, symlink target, mode incl. special bits, uid/gid, ns mtime of files, symlinks and directories, xattrs, rdev, link groups recomputed from source inodes inside the copied subset); symbolic modes are evaluated by /bin/chmod on scratch nodes of the same type and original mode; directories created above the target must carry the requested owner and timestamp; when the landing path is the image of a source directory but existed before its contents were copied (the destination root, or a path created with MkdirAll for CopyDirContents / a trailing-slash destination) that directory's own ns mtime must equal the source directory's (or the requested Utime) - nothing else of it is judged; for a requested time outside the int64-ns window every copied entry (files, dirs, symlinks, specials), every directory created above the target and the landing directory are read with lstat as (sec, nsec) pairs and must equal the pair an independent utimensat(AT_SYMLINK_NOFOLLOW) of the requested (sec, nsec) leaves on a scratch node of the same destination file system (file-system clamping is thereby tolerated; the mtime columns of the generic diff are masked for these cases; a Copy that refuses such a time is counted, not judged); an xattr (entry, key) may be missing in the copy only if the recording handler was called for exactly that destination path and key, or - AllowXAttrErrors - an independent lsetxattr of that key/value on a scratch node of the destination file system is refused (a tolerated failure of one key does not excuse the other keys of the entry); every handler call must name a copied destination path and carry an error; the notifier must be called exactly once per non-directory with its leading-slash normalised destination path (calls for directories are counted, not judged). " +
@@ -905,10 +905,70 @@ func c13WildUtime(c *core.Ctx, r *core.Result, R *core.Rand) *core.Result {
 	return r
 }
 
+// c13WildLinks: a link group spread over several wildcard matches whose
+// contents land in one destination directory, an unrelated file written
+// between two of its names (its name may be a prefix of the first one).
+func c13WildLinks(c *core.Ctx, r *core.Result, R *core.Rand) *core.Result {
+	src, dst := filepath.Join(c.Dir, "src"), filepath.Join(c.Dir, "dst")
+	n1 := core.Pick(R, []string{"f10", "ab", "x.y", "a b", "n-1"})
+	n2 := core.Pick(R, []string{n1[:len(n1)-1], n1[:1], "zz", n1 + "0"})
+	n3 := core.Pick(R, []string{"g", n1 + ".lnk", "0"})
+	t := &tree.Tree{}
+	mt := int64(1_100_000_000_000_000_000)
+	for _, d := range []string{"in", "in/d1", "in/d2", "in/d3"} {
+		t.Entries = append(t.Entries, tree.Entry{Path: d, Type: tree.Dir, Perm: 0755, Mtime: mt})
+	}
+	t.Entries = append(t.Entries,
+		tree.Entry{Path: "in/d1/" + n1, Type: tree.File, Perm: 0644, Mtime: mt + 1, Data: []byte("the group's bytes")},
+		tree.Entry{Path: "in/d2/" + n2, Type: tree.File, Perm: 0600, Mtime: mt + 2, Data: []byte("unrelated")},
+		tree.Entry{Path: "in/d3/" + n3, Type: tree.File, Perm: 0644, Mtime: mt + 1, Data: []byte("the group's bytes"), LinkTo: "in/d1/" + n1})
+	t.Sort()
+	os.Mkdir(src, 0755)
+	os.Mkdir(dst, 0755)
+	if err := tree.Materialise(src, t); err != nil {
+		r.Inconclusive = "materialise: " + err.Error()
+		return r
+	}
+	dstArg := core.Pick(R, []string{"out", "new/out", "/out/"})
+	r.Sample = map[string]any{"variant": "wildcard+linkgroup", "tree": t.Lines(), "src": "in/*", "dst": dstArg}
+	r.FP = fmt.Sprintf("wild-links|%s|%s|%s|%s", n1, n2, n3, dstArg)
+	r.AddSet("variants", "wildcard+linkgroup")
+	r.Nontrivial = true
+	if err := fs.Copy(context.Background(), src, "in/*", dst, dstArg, fs.WithCopyInfo(fs.CopyInfo{AllowWildcards: true, CopyDirContents: true})); err != nil {
+		r.ViolateD("copy-failed", r.Sample, "wildcard copy of three directories failed: %v", err)
+		return r
+	}
+	r.Count("copies", 1)
+	r.Count("wildcard_copies_with_a_link_group_spread_over_matches", 1)
+	out := filepath.Join(dst, strings.Trim(dstArg, "/"))
+	ino := map[string]uint64{}
+	for nm, want := range map[string]string{n1: "the group's bytes", n2: "unrelated", n3: "the group's bytes"} {
+		b, err := os.ReadFile(filepath.Join(out, nm))
+		if err != nil || string(b) != want {
+			r.ViolateD("copy-diverged", r.Sample, "%q holds %q (%v), the source file holds %q", nm, b, err, want)
+			return r
+		}
+		var st syscall.Stat_t
+		if syscall.Lstat(filepath.Join(out, nm), &st) == nil {
+			ino[nm] = st.Ino
+		}
+	}
+	if ino[n1] != ino[n3] {
+		r.ViolateD("linkgroup-lost", r.Sample, "%q and %q share an inode in the source (matches d1 and d3 of in/*), their copies do not (unrelated %q was written between them)", n1, n3, n2)
+	}
+	if ino[n2] == ino[n1] {
+		r.ViolateD("linkgroup-invented", r.Sample, "%q shares an inode with %q in the copy only", n2, n1)
+	}
+	return r
+}
+
 func c13Run(c *core.Ctx) *core.Result {
 	r := &core.Result{}
 	if !needRoot(r) {
 		return r
+	}
+	if wr := core.NewRand(core.Mix(c.Seed, "C13-wild-links", c.Index)); wr.P(1, 25) {
+		return c13WildLinks(c, r, wr)
 	}
 	if wr := core.NewRand(core.Mix(c.Seed, "C13-wild-utime", c.Index)); wr.P(1, 20) {
 		return c13WildUtime(c, r, wr)
